@@ -81,6 +81,37 @@ CHECKS = {
          "All token sequences of <= 4 (thorough 5) tokens over a 26-token alphabet, every single (thorough: double) token insertion / deletion / duplication / replacement of a 24-program corpus, 20 nesting families to depth 64 (thorough 200) and 66 host values (nil, typed nil, pointer to nil pointer, nil interfaces inside containers, cyclic pointers, recursive types, unsupported kinds) go through Eval, Compile + Callable and Debug inside isolated worker processes: a panic that escapes the API or a dead worker is a violation, and the work counted by the build-tag Step hooks (lexer tokens, parser expr calls, checker nodes, unify calls, conversion calls) must stay below 200·(n+2)²+2000 for an input of n runes — a deterministic abort, never a wall-clock oracle.",
          "Polynomial is checked as quadratic in counted steps; evaluation cost is covered by C11 (forward-only bytecode). Stack exhaustion beyond nesting depth 200 is not explored.",
          "DESIGN.md §4 C12"),
+
+ "C07": ("enum", "model_checking",
+         "bounded-exhaustive enumeration of (compile-time environment, run-time environment) pairs, run-time mutations and invocation histories, each executed on the real Callable and judged by structural type equality plus the reference evaluator",
+         "All pairs of 19 values of 15 types for the binding x, the run-time mutations {x missing, y missing, extra name, y of another type, empty}, 7 representation pairs (raw / host map / host struct in every meaningful combination), 6 programs containing tracers, under the 8 map-iteration seeds, plus every history of <= 3 invocations of one Callable over five environment variants (incl. the same Go type with a nil pointer where the compile-time sample had a value, and the same rejected environment object passed again): the call must be accepted iff every compile-time name is present with a structurally equal type; a rejection must return an error with an EMPTY host-call trace and no panic; an acceptance must produce the reference evaluator's value and trace; each invocation is independent of the history before it.",
+         "Trusted: structural type equality on descriptions (gen.Equal), mc/ref evaluator; host types are those the reference derives from the description (C15 checks the conversion itself).",
+         "DESIGN.md §4 C07"),
+ "C13": ("enum", "model_checking",
+         "explicit enumeration of ALL API histories up to the depth bound on one engine with shared environment objects, under all 8 map-iteration seeds, with a differential oracle against a fresh engine",
+         "Every history of <= 4 (thorough 5) operations over a 22-operation menu (compile e0..e4 against one shared *types.Env; invoke compiled expression k with one shared *val.Env, a host struct or a host map; Debug) is executed on one engine under each of the 8 map-iteration seeds; the last operation's result, rendering (String() and string(x)), error class and captured standard output must equal the same operation on a brand-new engine with brand-new environments under seed 1; standard output must be empty unless the expression calls print; host values must deep-equal their snapshot. The expressions print, render multi-entry maps / objects, call union / intersect / diff with several survivors, reach one value through two paths, and fail. A 300-compilation history checks that later compilations are unaffected.",
+         "No state merging (a state is its history), so no canonicalisation argument is needed. The runtime overlay owns map-iteration order; stdout is captured through a pipe.",
+         "DESIGN.md §4 C13"),
+ "C14": ("sched", "model_checking",
+         "stateless model checking: a hand-written cooperative scheduler runs the real goroutines and a DFS enumerates all interleavings of the hooked synchronisation points with iterative preemption bounding; vector-clock race detection over hooked accesses; separate free-running go test -race pass of the same thread bodies",
+         "15 scenarios of 2–3 threads (independent engines compiling polymorphic calls; one initialised engine compiling 2–3 expressions; one Callable invoked by three threads on each of the four back ends and with a shared *val.Env; compile while invoking; strtotime on an uncached zone; programs that together call every built-in; inputs no earlier execution has seen; Debug and Eval). Every interleaving of the synchronisation operations (atomic type-variable counter, zone-cache lock / unlock) is executed for preemption bounds 0,1,2,… until a larger bound adds no schedule or the per-scenario schedule cap is hit (reported per scenario); on each execution a vector-clock detector checks every hooked read / write (happens-before from spawn, release→acquire and atomics only) and each thread's outcome must equal its outcome when run alone; a schedule is replayed twice to prove determinism. Then the same bodies run free on plain goroutines under the Go race detector, which sees every memory access, hooked or not.",
+         "CHESS reduction (scheduling at synchronisation operations only is complete when the program is data-race free, which both detectors check). Sequential consistency assumed; the C library behind strtotime is opaque. Bounds completed are in the evidence file.",
+         "DESIGN.md §4 C14"),
+ "C15": ("enum", "model_checking",
+         "bounded-exhaustive enumeration of Go types built by reflection × value domains, converted by the real conv package and compared with a reference conversion that works on descriptions (no reflection)",
+         "All Go types of depth <= 3 over 13 leaf kinds and the pointer / slice / array / map / struct constructors (fields untagged, renamed, optional, duplicate names), with all values over 2–3 element leaf domains, nil / non-nil pointers, nil / empty / one / two-element containers and nil / non-nil interfaces: ValOf must succeed iff the description is convertible; the value must be well formed, of the expected type, equal in contents, and ValOf(v).Type ≡ TypeOf(v); TypeEnvOf / ValEnvOf must agree field by field; all stable values (no interface part, nil-able parts non-nil or declared optional) of one Go type must get one type, and an expression compiled against one must accept every other; bad data must be an error, never a panic.",
+         "Trusted: the Go-shape grammar and reference conversion (mc/props/c15shape.go). Nested value domains are bounded (first / middle / last picks). Pointer map keys are outside the alphabet.",
+         "DESIGN.md §4 C15"),
+ "C16": ("enum", "model_checking",
+         "bounded-exhaustive enumeration: every documented overload × every parameter position with an optional argument, direct uses of optionals, mixed-presence host containers, and all well-typed programs over host structs with nil / non-nil fields, judged by the reference checker / evaluator",
+         "For every documented overload and every parameter position, the call with maybe[T] in that position (as variable present / absent, object field, list element, map value) must be accepted exactly when the reference checker accepts it (only a bare type variable or get(maybe[a], a)); 42 direct uses (member, subscript, operators, conditions, nesting, right and wrong defaults) likewise; containers of structs whose pointer field is present in some elements and absent in others must be refused, and one Callable invoked with a present and then an absent pointer of the same Go type must reject the second call; all well-typed programs up to depth 2 over 16 host environments with nil / non-nil, tagged / untagged pointer, slice and map fields must evaluate to the reference value (get yields payload or default) and never fail because of an absence, on four back ends.",
+         "Trusted: mc/ref checker and evaluator; the C15 reference conversion for the container family.",
+         "DESIGN.md §4 C16"),
+ "C19": ("enum", "model_checking",
+         "bounded-exhaustive enumeration of single-line programs evaluated in debug mode; the record is read through the build-tag hook and compared with the reference evaluator's list of evaluated terms and their columns",
+         "All accepted programs of depth <= 2 (one nested operand) over the debug alphabet (ASCII / non-ASCII identifiers and strings, multi-line renderings, members, subscripts, method calls, operators, conditionals and short-circuit operators with unevaluated branches, failing accesses) in raw and host-map environments, plus 18 three-level programs: Debug must return normal evaluation's value / failure; the record (before rendering) must equal the reference's (value, column) list for exactly the evaluated variable / call / member / subscript terms in completion order, each at its own term's column; rendering must not fail, must keep the source as first line and show every recorded value at its column; yae.Debug's report must equal rendering that record.",
+         "Trusted: the column-tracking renderer (gen.Term.OwnCols) and the reference evaluator's completion order. Functions that evaluate one operand twice are excluded.",
+         "DESIGN.md §4 C19"),
  "C17": ("enum", "model_checking",
          "bounded-exhaustive enumeration of type pairs executed on the real Unify/Equals, judged against an independent matcher and algebraic laws",
          "Every ordered pair of types up to depth 1 (width 2) over the full constructor alphabet, every same-constructor pair of a reduced depth-2 set, and every pair of argument 2-tuples (tree-shaped and pointer-shared) is run through the real types.Equals / types.Unify in both orders; Equals must coincide with structural identity by field name, and a successful Unify must yield an acyclic substitution that makes both sides equal (relaxed only at the documented ⊥/⊤ positions) and must succeed exactly when the reference one-way matcher finds an instantiation for pattern-vs-ground pairs. Exhaustive within that bound; nothing is sampled.",
